@@ -23,6 +23,18 @@ func (w *World) genEncoding(label string) ([]byte, string) {
 	} else {
 		m = ref.BaseMul(big.NewInt(int64(1 + w.t.Choose("ops", label+".k", 1000))))
 	}
+	// one of the two other points that share m's y coordinate (its images
+	// under the curve endomorphism): equal y, different x
+	if !m.Inf {
+		switch w.t.Choose("ops", label+".endo", 8) {
+		case 6:
+			m = m.Endo()
+			w.r.Probe("endomorphism_image_constructed")
+		case 7:
+			m = m.Endo().Endo()
+			w.r.Probe("endomorphism_image_constructed")
+		}
+	}
 	compressed := w.t.Bool("ops", label+".compressed")
 	enc := m.Uncompressed()
 	if compressed {
